@@ -111,7 +111,12 @@ func (r *Runner) SetThisValue(key string, value interface{}) {
 	r.this[key] = value
 }
 
-func (r *Runner) Resolve(ctx context.Context, v Expression) (interface{}, error) {
+func (r *Runner) Resolve(ctx context.Context, v Expression) (result interface{}, err error) {
+	defer func() {
+		if capture := recover(); capture != nil {
+			result, err = nil, fmt.Errorf("resolve error: %v", capture)
+		}
+	}()
 	res, err := r.resolve(ctx, v)
 	if err != nil {
 		return nil, err
